@@ -1357,9 +1357,18 @@ namespace xsimd
         real_batch b = imag();
         real_batch c = other.real();
         real_batch d = other.imag();
+        // c*c + d*d underflows (overflows) long before the quotient does: scale a very small (large) divisor
+        // by a power of two first; a / (c + id) = s * (a / (s*c + i*s*d))
+        constexpr T big = std::is_same<T, float>::value ? T(1.125899906842624e15) /* 2^50 */ : T(3.273390607896142e150) /* 2^500 */;
+        constexpr T down = std::is_same<T, float>::value ? T(8.470329472543003e-22) /* 2^-70 */ : T(2.409919865102884e-181) /* 2^-600 */;
+        constexpr T up = std::is_same<T, float>::value ? T(1.2676506002282294e30) /* 2^100 */ : T(4.149515568880993e180) /* 2^600 */;
+        real_batch m = max(abs(c), abs(d));
+        real_batch s = select(m >= real_batch(big), real_batch(down), select(m < real_batch(T(1) / big) && m > real_batch(T(0)), real_batch(up), real_batch(T(1))));
+        c *= s;
+        d *= s;
         real_batch e = c * c + d * d;
-        m_real = (c * a + d * b) / e;
-        m_imag = (c * b - d * a) / e;
+        m_real = ((c * a + d * b) / e) * s;
+        m_imag = ((c * b - d * a) / e) * s;
         return *this;
     }
 
